@@ -8,6 +8,8 @@
 set -u
 export GOFLAGS=-mod=mod GOPROXY=off GOSUMDB=off GOTOOLCHAIN=local
 D="$1"; P="$2"; shift; shift; CHECKS="${*:-$P}"
+# every instrumented build has its own overlay paths and so its own build cache entries: keep the disk from filling up
+[ "$(df --output=avail -BG / | tail -1 | tr -dc 0-9)" -lt 40 ] && go clean -cache
 WT="/tmp/wt/confirm-$$"
 git -C /repo worktree add -q --detach "$WT" HEAD || exit 2
 trap 'git -C /repo worktree remove --force "$WT" >/dev/null 2>&1' EXIT
